@@ -5,6 +5,7 @@ import (
 	"fmt"
 
 	"github.com/lidofinance/dc4bc/client/types"
+	"github.com/lidofinance/dc4bc/storage"
 
 	"verif/mc/kit"
 	"verif/mc/world"
@@ -24,6 +25,9 @@ type DKGRun struct {
 	OnMachinePanic func(s *worldx.State, node int, op *types.Operation, p *world.MachinePanic)
 	// Linear explores only the canonical order (node 0 first) instead of all orders.
 	Linear bool
+	// Adversary may return board messages that somebody (the deviating participant) posts in
+	// state s besides the operators' answers; each returned group is posted as one further action.
+	Adversary func(s *worldx.State) [][]storage.Message
 
 	W     *world.World
 	K     *worldx.Worker
@@ -95,6 +99,19 @@ func (d *DKGRun) Explore(r *kit.Run, check func(s *worldx.State), terminal func(
 					if d.Linear {
 						return out, nil
 					}
+				}
+			}
+			if d.Adversary != nil && !(d.Linear && len(out) > 0) {
+				for _, group := range d.Adversary(s) {
+					c := s
+					for gi, m := range group {
+						c = k.PostMsg(c, m, fmt.Sprintf("adversary posts %s (%d/%d)", m.Event, gi+1, len(group)))
+					}
+					c, err := k.DrainEager(c, nil)
+					if err != nil {
+						return nil, err
+					}
+					out = append(out, c)
 				}
 			}
 			return out, nil
